@@ -56,6 +56,16 @@ def restore():
             delattr(mod, name)
 
 
+def restore_one(mod, name):
+    key = (mod.__name__, name)
+    if key in _ORIG:
+        _m, v, had = _ORIG[key]
+        if had:
+            setattr(mod, name, v)
+        elif hasattr(mod, name):
+            delattr(mod, name)
+
+
 def install(symconst=False, earth_exact=True):
     """patch module globals; returns the module dict. Call after S.new_ctx()."""
     restore()
